@@ -547,21 +547,37 @@ def check_counting(ctx: Ctx):
                 return None
             return super().external_call(name, args, kwargs, node)
 
-    o = Obj(cls, {})
-    pred, ref = AArr("PRED", False), AArr("REF", False)
-    it = PairInterp(prog, init, {"prediction_arr": pred, "reference_arr": ref}, self_obj=o)
-    it.root.no_inline = {uniq.qual, cnt.qual, integ.qual}
-    out = it.run()
-    construct = f"{init.qual}"
-    if out.kind == "raise" or out.decisions:
-        ctx.undecided("R02.5", init, init.node, construct, f"pair constructor not evaluable: {out.kind} {out.exc} {[norm(d[0]) for d in out.decisions if isinstance(d[0], ast.AST)][:3]}")
-        return
-    a = o.attrs
-    ctx.decide("R02.5", init, init.node, construct + ":n_pred", "default number of prediction instances = unique non-zero labels of the prediction array", a.get("n_prediction_instance") == 3, {"got": repr(a.get("n_prediction_instance"))})
-    ctx.decide("R02.5", init, init.node, construct + ":n_ref", "default number of reference instances = unique non-zero labels of the reference array", a.get("n_reference_instance") == 4, {"got": repr(a.get("n_reference_instance"))})
-    ctx.decide("R02.5", init, init.node, construct + ":matched", "matched instances = labels present in both arrays", sorted(x.name for x in a.get("matched_instances", []) if isinstance(x, Sym)) == ["B", "C"], {"got": repr(a.get("matched_instances"))})
-    ctx.decide("R02.5", init, init.node, construct + ":arrays", "arrays are stored uncrossed", a.get("_prediction_arr") is pred and a.get("_reference_arr") is ref, None, nontrivial=False)
-    ctx.decide("R02.5", init, init.node, construct + ":labels", "label tuples belong to their own side", list(a.get("_pred_labels", ())) == LBL["PRED"] and list(a.get("_ref_labels", ())) == LBL["REF"], {"pred": repr(a.get("_pred_labels")), "ref": repr(a.get("_ref_labels"))})
+    from ..absval import enumerate_paths as _ep
+
+    holder = []
+
+    def make(prefix):
+        o_ = Obj(cls, {})
+        p_, r_ = AArr("PRED", False), AArr("REF", False)
+        it_ = PairInterp(prog, init, {"prediction_arr": p_, "reference_arr": r_}, self_obj=o_, prefix=prefix)
+        it_.root.no_inline = {uniq.qual, cnt.qual, integ.qual}
+        holder.append((o_, p_, r_))
+        return it_
+
+    outs = _ep(make, max_paths=16)
+    for out, (o, pred, ref) in zip(outs, holder):
+        # splits on facts about the inputs' dtypes are input classes (a fast path for unsigned maps ...)
+        facts = all(isinstance(d[1], Unknown) and str(d[1].tag).startswith("dtype-fact") for d in out.decisions)
+        construct = f"{init.qual}" + ("[" + "; ".join(f"{d[1].tag}={d[2]}" for d in out.decisions)[:120] + "]" if out.decisions and facts else "")
+        if out.kind == "raise" or (out.decisions and not facts):
+            ctx.undecided("R02.5", init, init.node, construct, f"pair constructor not evaluable: {out.kind} {out.exc} {[norm(d[0]) for d in out.decisions if isinstance(d[0], ast.AST)][:3]}")
+            continue
+        _judge_counting(ctx, init, construct, o, pred, ref, LBL)
+
+
+def _judge_counting(ctx, init, construct, o, pred, ref, LBL):
+    if True:
+        a = o.attrs
+        ctx.decide("R02.5", init, init.node, construct + ":n_pred", "default number of prediction instances = unique non-zero labels of the prediction array", a.get("n_prediction_instance") == 3, {"got": repr(a.get("n_prediction_instance"))})
+        ctx.decide("R02.5", init, init.node, construct + ":n_ref", "default number of reference instances = unique non-zero labels of the reference array", a.get("n_reference_instance") == 4, {"got": repr(a.get("n_reference_instance"))})
+        ctx.decide("R02.5", init, init.node, construct + ":matched", "matched instances = labels present in both arrays", sorted(x.name for x in a.get("matched_instances", []) if isinstance(x, Sym)) == ["B", "C"], {"got": repr(a.get("matched_instances"))})
+        ctx.decide("R02.5", init, init.node, construct + ":arrays", "arrays are stored uncrossed", a.get("_prediction_arr") is pred and a.get("_reference_arr") is ref, None, nontrivial=False)
+        ctx.decide("R02.5", init, init.node, construct + ":labels", "label tuples belong to their own side", list(a.get("_pred_labels", ())) == LBL["PRED"] and list(a.get("_ref_labels", ())) == LBL["REF"], {"pred": repr(a.get("_pred_labels")), "ref": repr(a.get("_ref_labels"))})
 
 
 def _run_rule(ctx, name, fn):
